@@ -1,10 +1,13 @@
 import Preflate.Driver.Wire
+import Preflate.Driver.CodecWire
 open Preflate Preflate.Driver
 
 def handle (line : String) : String :=
   match line.trimAscii.toString.splitOn " " with
   | ["parse", d] => parseLine (unhex d)
   | ["rewrite", d] => rewriteLine (unhex d)
+  | "codec" :: ops => (match parseOps ops with | some o => codecLine o | none => "bad-request")
+  | "events" :: ops => (match parseOps ops with | some o => eventsLine o | none => "bad-request")
   | _ => "bad-request"
 
 partial def loop (h : IO.FS.Stream) (out : IO.FS.Stream) : IO Unit := do
